@@ -156,6 +156,13 @@ def instances(rng: random.Random, tier: str) -> list[dict]:
         add("ip", b".".join(str(rng.choice(octs)).encode() for _ in range(4)))
     for bad in (b"1.2.3.256", b"01.2.3.4", b"1.2.3", b"0.0.0.0", b"1.2.3.0", b"1.2.3.255", b"1.2.3.4.5"[:7]):
         add("ip", bad)
+    # on both sides of the documented section / version number contexts (Net.IpContextSuppressed decides which side)
+    for pre_ in (b"<t>", b"<t> ", b"<w:t>", b"<w:t>\t\n", b"<w:tt>", b"<:t>", b"<w-x:t>", b"<a:b:t>", b"< w:t>", b"t>", b":t> ", b"<T>", b"<w:t> x ",
+                 b"section ", b"Section\t", b"SECTION  ", b"sec. ", b"Sec.\n", b"sec ", b"section: ", b"sections ", b"subsection ", b"section", b"sec.",
+                 b"version ", b"Version=\"", b"version\x00\x00", b"ersion ", b"version: ", b"version 2 ", b"Version      ", b"version           ", b"versions ",
+                 b"version\t=\t\"", b"ersio ", b"conversion ", b"version-", b"v ", b"file version is "):
+        add("ip", b"10.1.2.3", pre_override=b2l(pre_))
+        add("ip", b"192.168.1.10", pre_override=b2l(b"x " + pre_))
     # on both sides of every documented false-positive rule (Net.FalsePositiveDomain decides which side): roots and endings
     # from the two tables and next to them, one-letter roots, "this.", x.prototype.y, name.Capitalised, iterator ... .next
     roots = [b"a", b"x", b"ab", b"data", b"datax", b"user", b"users", b"wscript", b"this", b"thisx", b"object", b"e-mail", b"email", b"zone", b"org"]
@@ -321,6 +328,8 @@ def run(prop: str, tier: str) -> int:
             insts.append({"kind": "inst", "what": "domain", "blob": b2l(b"example-host." + t.lower()), "neutral": True})
         for i, inst in enumerate(insts):
             pre, suf = PRE[i % len(PRE)], SUF[(i // len(PRE)) % len(SUF)]
+            if "pre_override" in inst:
+                pre = bytes(inst.pop("pre_override"))
             blob = bytes(inst["blob"])
             if inst["what"] == "pe":
                 suf = bytes(rng.randrange(256) for _ in range(inst.pop("trailing", 0)))
